@@ -178,12 +178,6 @@ package graph
 //@   ensures[C19] present: (q in g.nodes) ==> !isnil(result) && len(result) == len(g.nodes[q].Dependents)
 //@        && (forall i int :: 0 <= i && i < len(result) ==> result[i] == g.nodes[q].Dependents[i])
 //
-// findCyclePath uses a recursive closure (outside the supported subset): its contract is ASSUMED (frame only) and
-// its result is checked by the bounded stand-in of C05 (see /verif/DESIGN.md).
-//@ func DependencyGraph.findCyclePath
-//@   nocheck
-//@   modifies alloc
-//
 //@ func DependencyGraph.detectCyclesFrom
 //@   requires maps: g != nil && g.nodes != nil && g.edges != nil && g.cycleCache != nil
 //@   modifies map[NodeKey]bool, CircularDependencyError.Node, CircularDependencyError.Path, alloc
